@@ -279,9 +279,23 @@ def run(ctx):
         for bb, t in g.calls():
             c = t["callee"]
             if c["k"] == "fndef" and c.get("def") == "label::ToLabels::to_labels":
-                for ubb, ui, item in g.uses(t["dest"]["local"]):
-                    if ui == "term" and item["k"] == "call" and item["callee"]["k"] == "fndef" and cm.callee_name(item["callee"]).endswith("Try>::branch"):
-                        okp = True
+                work = [t["dest"]["local"]]
+                seen_ = set()
+                while work:
+                    l_ = work.pop()
+                    if l_ in seen_:
+                        continue
+                    seen_.add(l_)
+                    for ubb, ui, item in g.uses(l_):
+                        if ui == "term" and item["k"] == "call" and item["callee"]["k"] == "fndef":
+                            un_ = cm.callee_name(item["callee"])
+                            if un_.endswith("Try>::branch") or un_.endswith("Try::branch"):
+                                okp = True
+                            # `.map_err(EngineError::LabelError)?`: the converted result is what `?` sees
+                            elif un_.endswith("Result::<T, E>::map_err") and item.get("dest") and not item["dest"].get("proj"):
+                                work.append(item["dest"]["local"])
+                        elif ui != "term" and item.get("k") == "assign" and item["rv"].get("k") == "use" and not item["place"].get("proj"):
+                            work.append(item["place"]["local"])
         if okp:
             ctx.ok("C17-R5", "Engine::generator propagates the LabelError of to_labels with `?`", g.loc())
         else:
